@@ -202,8 +202,9 @@ def judge(case, counters, violations, samples, sigs):
         if got != "ok":
             why = "strict?" if strict else ""
             bad = (f"oracle-ok-observed-{got}{why}", "C09.accept-iff")
-        elif nwarn != exp[1]:
-            bad = (f"warnings-expected-{exp[1]}-observed-{nwarn}", "C09.warn-iff")
+        elif bool(nwarn) != bool(exp[1]):
+            # the statement fixes whether a warning is emitted, not how many messages carry it
+            bad = (f"warning-expected-{bool(exp[1])}-observed-{nwarn}", "C09.warn-iff")
         if exp[1]:
             counters["warned"] += 1
     if bad:
